@@ -1308,7 +1308,10 @@ class Executor:
                     gv = self.eval(ast.parse(gexpr.strip(), mode="eval").body, st)
                 finally:
                     self.spec_mode = saved
-                self.assign(ast.Name(id=gname.strip(), ctx=ast.Store()), gv, st, node)
+                tgt = ast.parse(gname.strip(), mode="eval").body      # a ghost name, or an element of a ghost list (G[-1] = ...)
+                if isinstance(tgt, ast.Name):
+                    tgt = ast.Name(id=tgt.id, ctx=ast.Store())
+                self.assign(tgt, gv, st, node)
                 continue
             cl = self.eval_spec(text, st)
             self.ctx.oblige(st, "have:%s" % name, cl, "hint", getattr(node, "lineno", None))
